@@ -231,7 +231,10 @@ namespace verif
                 hist += "remove " + std::string(MNAMES[std::find(METHODS, METHODS + 5, p.method) - METHODS]) + " " + written + "; ";
                 try
                 {
-                    router.removeRoute(p.method, written);
+                    if (written.size() % 2)
+                        router.removeRoute(p.method, written);
+                    else
+                        Rest::Routes::Remove(router, p.method, written);
                 }
                 catch (const std::exception& e)
                 {
@@ -291,7 +294,10 @@ namespace verif
             hist += "add#" + std::to_string(pid) + " " + MNAMES[std::find(METHODS, METHODS + 5, p.method) - METHODS] + " " + written + "; ";
             try
             {
-                router.addRoute(p.method, written, [&rec, pid](const Rest::Request& req, Http::ResponseWriter) {
+                // a route can be registered through three public doors: Router::addRoute, the per-method members
+                // (get/post/put/del/head) and the free functions Rest::Routes::Get ...; which one is taken follows
+                // from the route's id and text (no choice consumed)
+                Rest::Route::Handler handler = [&rec, pid](const Rest::Request& req, Http::ResponseWriter) {
                     ++rec.calls;
                     rec.last_id = pid;
                     rec.params.clear();
@@ -302,7 +308,56 @@ namespace verif
                     for (auto& s : req.splat())
                         rec.splats.push_back(s.as<std::string>());
                     return Route::Result::Ok;
-                });
+                };
+                unsigned door = unsigned(pid + int(written.size())) % 3;
+                if (door == 0)
+                    router.addRoute(p.method, written, handler);
+                else if (door == 1)
+                {
+                    switch (p.method)
+                    {
+                    case Http::Method::Get:
+                        router.get(written, handler);
+                        break;
+                    case Http::Method::Post:
+                        router.post(written, handler);
+                        break;
+                    case Http::Method::Put:
+                        router.put(written, handler);
+                        break;
+                    case Http::Method::Delete:
+                        router.del(written, handler);
+                        break;
+                    case Http::Method::Head:
+                        router.head(written, handler);
+                        break;
+                    default:
+                        router.addRoute(p.method, written, handler);
+                    }
+                }
+                else
+                {
+                    switch (p.method)
+                    {
+                    case Http::Method::Get:
+                        Rest::Routes::Get(router, written, handler);
+                        break;
+                    case Http::Method::Post:
+                        Rest::Routes::Post(router, written, handler);
+                        break;
+                    case Http::Method::Put:
+                        Rest::Routes::Put(router, written, handler);
+                        break;
+                    case Http::Method::Delete:
+                        Rest::Routes::Delete(router, written, handler);
+                        break;
+                    case Http::Method::Head:
+                        Rest::Routes::Head(router, written, handler);
+                        break;
+                    default:
+                        router.addRoute(p.method, written, handler);
+                    }
+                }
                 if (dup)
                     return Verdict::fail("C10/duplicate-add-accepted", "adding an already live route did not throw: " + hist);
                 live.push_back(p);
